@@ -5,7 +5,7 @@ import RP.Props.C15
 `RP.Transport.absCode` (C12/C13 model: `variant · 2^64 + bits`) and `RP.Codec.absOf` (C15 model:
 `⟨variant, bits⟩`) describe the same `Abstraction::from((street, index))`; their `bits` coincide, hence
 so do the XOR pair keys. `RP.C15.C15_pair_keys_distinct_within` then discharges the hypothesis
-`layerKeys.Nodup` of `C13_metric_entries` for the flop (128), turn (144) and river (101) bucket sets
+`layerKeys.Nodup` of `C13_metric_entries` for the preflop (169, `C15_pair_keys_distinct_pref`), flop (128), turn (144) and river (101) bucket sets
 (bucket counts are the generated constants `RP.Codec.nAbstractions`). -/
 namespace RP.C13
 open RP.Transport RP.Kmeans
@@ -117,25 +117,26 @@ theorem layerKeys_nodup (s K : Nat)
       have := (hinj i0 j i' j' h3 (by omega) g4 (by omega) (by rw [← h4, hab, g5])).1
       omega
 
-/-- **collision-free keys for the real bucket sets** (from C15): for the flop (`s = 1`, 128 buckets),
-    turn (`s = 2`, 144) and river (`s = 3`, 101) sets, and any number of centroids up to the bucket
-    count, the keys `Layer::metric` inserts are pairwise distinct. -/
-theorem layerKeys_nodup_real (s K : Nat) (hs : s = 1 ∨ s = 2 ∨ s = 3) (hK : K ≤ RP.Codec.nAbstractions s) :
+/-- **collision-free keys for the real bucket sets** (from C15): for the preflop (`s = 0`, 169 classes
+kept as centroids), flop (`s = 1`, 128 buckets), turn (`s = 2`, 144) and river (`s = 3`, 101) sets, and
+any number of centroids up to the bucket count, the keys `Layer::metric` inserts are pairwise distinct. -/
+theorem layerKeys_nodup_real (s K : Nat) (hs4 : s < 4) (hK : K ≤ RP.Codec.nAbstractions s) :
     (layerKeys s K).Nodup := by
-  have hs4 : s < 4 := by omega
-  have hn : RP.Codec.nAbstractions s ≤ 256 := by rcases hs with rfl | rfl | rfl <;> decide
+  have hn : RP.Codec.nAbstractions s ≤ 256 := by
+    have : s = 0 ∨ s = 1 ∨ s = 2 ∨ s = 3 := by omega
+    rcases this with rfl | rfl | rfl | rfl <;> decide
   apply layerKeys_nodup
   intro i j i' j' hj hi hj' hi' h
   rw [keyOf_eq_codec s i j hs4 (by omega) (by omega), keyOf_eq_codec s i' j' hs4 (by omega) (by omega),
     RP.C15.C15_pair_symmetric (RP.Codec.absOf s i), RP.C15.C15_pair_symmetric (RP.Codec.absOf s i')] at h
-  have := RP.C15.C15_pair_keys_distinct_within s j i j' i' hs hj (by omega) hj' (by omega) h
+  have := RP.C15.C15_pair_keys_distinct_within4 s j i j' i' hs4 hj (by omega) hj' (by omega) h
   exact ⟨this.2, this.1⟩
 
 /-- **`C13_metric_entries_real`** — unconditional form of `C13_metric_entries` for the real layers:
-    on the flop / turn (/ river) street with at most `street.k()` (= generated cluster count) centroids
-    the map `Layer::metric` builds has exactly `K(K−1)/2` entries, strictly increasing keys, and under
-    the key of each pair `j < i` the symmetrised distance. -/
-theorem C13_metric_entries_real {κ α : Type} [Arith α] (s : Nat) (hs : s = 1 ∨ s = 2 ∨ s = 3)
+    on every street (preflop included) with at most `street.k()` (= generated cluster count / 169
+    preflop classes) centroids the map `Layer::metric` builds has exactly `K(K−1)/2` entries, strictly
+    increasing keys, and under the key of each pair `j < i` the symmetrised distance. -/
+theorem C13_metric_entries_real {κ α : Type} [Arith α] (s : Nat) (hs : s < 4)
     (emd : κ → κ → α) (kmeans : List κ) (hK : kmeans.length ≤ RP.Codec.nAbstractions s) :
     2 * (metricRaw s emd kmeans).length = kmeans.length * (kmeans.length - 1) ∧
     SortedKeys (metricRaw s emd kmeans) ∧
@@ -150,7 +151,12 @@ example : RP.Codec.nAbstractions 1 = RP.Gen.KMEANS_FLOP_CLUSTER_COUNT ∧
 
 /-- non-vacuity: a full turn layer of 144 centroids has 144·143/2 = 10296 entries -/
 example (emd : Nat → Nat → ℝ) : 2 * (metricRaw 2 emd (List.range 144)).length = 144 * 143 :=
-  (C13_metric_entries_real 2 (Or.inr (Or.inl rfl)) emd (List.range 144)
+  (C13_metric_entries_real 2 (by decide) emd (List.range 144)
+    (by rw [List.length_range]; decide)).1.trans (by rw [List.length_range])
+
+/-- non-vacuity for the preflop layer: 169 centroids give 169·168/2 = 14196 entries -/
+example (emd : Nat → Nat → ℝ) : 2 * (metricRaw 0 emd (List.range 169)).length = 169 * 168 :=
+  (C13_metric_entries_real 0 (by decide) emd (List.range 169)
     (by rw [List.length_range]; decide)).1.trans (by rw [List.length_range])
 
 end RP.C13
